@@ -355,7 +355,7 @@ fn main() {
                 // queries to a proved *specification* decider (S4 chart recogniser, S5 validator, S2 regex language via a
                 // checked DFA certificate, numeric emptiness): a disagreement is
                 // a concrete input on which the implementation departs from the property
-                let is_spec = m.request.starts_with("cfg q ") || m.request.starts_with("json v ") || m.request.starts_with("num sat ") || m.request.starts_with("rx qs ");
+                let is_spec = m.request.starts_with("cfg q ") || m.request.starts_with("json v ") || m.request.starts_with("num sat ") || m.request.starts_with("rx qs ") || m.request.starts_with("sch sat ");
                 rep.fail(
                     if is_spec { "spec" } else { "model" },
                     &format!("{}:{}", p.id.to_lowercase(), if is_spec { "spec-mismatch" } else { "model-mismatch" }),
